@@ -34,7 +34,6 @@ DOMAINS = {
         ("Inspector_full_quick.cfg", False),
         ("Inspector_clean_quick.cfg", True),
         ("Inspector_sigdoc_quick.cfg", True),
-        ("Inspector_deffull_quick.cfg", False),
         ("Inspector_cprop_quick.cfg", True),
         ("Inspector_relimp_quick.cfg", False),
     ],
@@ -52,7 +51,7 @@ DOMAINS = {
 }
 # one TLC run per recorded root cause (Inspector_defect.cfg): the invariant TLC must refute + the small domain holding the trigger
 _D = {"MAININS": '{"init"}', "MAXSTMTS": 2, "STMTS": '{"def"}', "DECOS": '{"none"}', "SIGS": '{"s0"}', "DOCS": '{"none"}', "VALS": '{"lit"}',
-      "IMPORTS": '{"OK"}', "ASNAMES": '{"-"}', "LEVELS": "{1}"}
+      "IMPORTS": '{"OK"}', "ASNAMES": '{"-"}', "LEVELS": "{1}", "CHAINS": '{"-"}'}
 DEFECTS = {
     "annonly": ("NoAnnOnly", dict(_D, STMTS='{"def", "annonly"}')),
     "import-self": ("NoImportSelf", dict(_D, MAININS='{"init", "sub"}', STMTS='{"import", "from"}')),
@@ -522,7 +521,7 @@ def _tlc_single_program(case: dict):
     """TLC on a module that extends Inspector and forces the stored token sequence (ForcedProg <- ReplayProg)."""
     import shutil
 
-    toks = ",\n  ".join("[" + ", ".join(f"{f} |-> {_tla_value(k.get(f, 0))}" for f in ("t", "n", "deco", "async", "sig", "doc", "val", "what", "as", "base", "inst", "lvl")) + "]" for k in case["prog"])
+    toks = ",\n  ".join("[" + ", ".join(f"{f} |-> {_tla_value(k.get(f, 0))}" for f in ("t", "n", "deco", "async", "sig", "doc", "val", "what", "as", "base", "inst", "lvl")) + f", chain |-> {json.dumps(k.get('chain', '-'))}]" for k in case["prog"])
     with scratch("c17r-") as d:
         shutil.copy(os.path.join(tlc.SPEC_DIR, "Inspector.tla"), d)
         with open(os.path.join(d, "InspectorReplay.tla"), "w") as fh:
@@ -538,7 +537,7 @@ def _replay_constants(case: dict) -> dict:
     def s(values):
         return "{" + ", ".join(json.dumps(v) if not isinstance(v, bool) else str(v).upper() for v in sorted(set(values), key=str)) + "}"
 
-    names = [k["n"] for k in prog if k["n"] not in ("-", "__init__")] + [k["as"] for k in prog if k["as"] != "-"] + [k["base"] for k in prog if k["base"] not in ("-", "OK")] + [k["what"] for k in prog if k["t"] == "ref" and k["what"] not in ("OK", "og")]
+    names = [k["n"] for k in prog if k["n"] not in ("-", "__init__")] + [k["as"] for k in prog if k["as"] != "-"] + [k["base"] for k in prog if k["base"] not in ("-", "OK", "other", "pkg")] + [k["what"] for k in prog if k["t"] == "ref" and k["what"] not in ("OK", "og")]
     depth, nest = 0, 0
     for k in case["prog"]:
         if k["t"] == "class":
@@ -560,6 +559,7 @@ def _replay_constants(case: dict) -> dict:
         "VALS": s([k["val"] for k in prog if k["t"] in ("assign", "ann")] or ["lit"]),
         "IMPORTS": s([k["what"] for k in prog if k["t"] == "from"] or ["OK"]),
         "ASNAMES": s([k["as"] for k in prog if k["t"] in ("from", "import")] or ["-"]),
+        "CHAINS": s([k.get("chain", "-") for k in prog if k["t"] == "class"] or ["-"]),
         "LEVELS": "{" + ", ".join(str(x) for x in sorted({max(k.get("lvl", 1), 1) for k in prog if k["t"] == "from"} or {1})) + "}",
         "ALLOWINST": "TRUE" if any(k["inst"] for k in prog) or any(k["n"] == "__init__" for k in prog) else "FALSE",
     }
